@@ -12,7 +12,7 @@ from pvc.contract import Contract
 from pvc.explore import Raised
 from pvc.sym import And, Or, Not, Implies, eq, lt, le, is_sym, smin, smax, ssum, close
 from . import fx
-from .net import Net, build_dcop, global_cost, HandlerRaised
+from .net import Net, build_dcop, global_cost, HandlerRaised, warm_up
 
 
 def _opt(mode, xs):
@@ -239,6 +239,8 @@ def h_tree(env):
         env.assume(False)   # the property is about instances with a unique optimum
     ap = dict(damping=0, noise=0)
     ap.update(p.get("algo_params", {}))
+    if p.get("warm_up"):
+        warm_up(env, algo, mode, {k_: v_ for k_, v_ in spec.items() if k_ in ("vars", "cons")}, ap, max_steps=400)
     try:
         net = Net(env, algo, mode, variables, cons, ap, patch_random=False)
     except Exception:  # noqa
@@ -303,6 +305,8 @@ def _tree_shapes(algo):
             if i % 4 == 2:
                 d["algo_params"] = dict(start_messages=("all", "leafs_vars")[(i // 4) % 2])
             q.append(d)
+        q.append(dict(algo=algo, spec="chain3_unary", inst_seed=300, warm_up=True))
+        q.append(dict(algo=algo, spec="star_nary", inst_seed=301, warm_up=True, policy="random", sched_seed=3))
         if algo == "amaxsum":
             for i, spec in enumerate(["chain3", "star_nary", "forest", "chain3_unary"]):
                 q.append(dict(algo=algo, spec=spec, inst_seed=100 + i, pause_resume_after=2 + i))
